@@ -103,6 +103,7 @@ func deviceRoots(c *Ctx, dv *dev) (*lockAnalysis, bool) {
 }
 
 func checkC16(c *Ctx) {
+	c.importRules(transportRules, []string{"R15.3"}, "R16.7") // the MIDI-input fan-out used around ProcessEvents: delivery and removal in one critical section
 	dv := newDev(c, "R16.0")
 	if !dv.ok || !dv.need("R16.0", []string{"ProcessEvents", "processEvent", "handleInputEvents", "handleOpenrgb", "NewDevice", "NoteOff", "AnalogNoteOff", "Panic"},
 		[]string{"eventProcessMutex", "externalTrackerMutex", "noteTracker", "externalNoteTracker", "config", "outputEvents"}) {
